@@ -276,6 +276,25 @@ for slots_ in ([_TW, [_TW[1]], [_TW[1], _third]], [[_TW[0], _third, _TW[1]], [_t
             fail("bundle-table", f"bundle with ZSK key tags {want_tags} (two different keys share a tag) is shown with ZSK tags {shown}", {"line": line})
             break
 
+# a revoked KSK (flags 385) is a KSK: it is listed in the KSK column with its (recomputed) tag, not among the ZSKs
+_kn = skrgen.ksk("Knext", 1)
+_rq3 = skrgen.honest_request("revoked-row", NOW + D(days=3), 3, [[skrgen.zsk(0)]] * 3, ksrxml.default_zsk_policy(), sign=False)
+_sch3 = {1: {"publish": ["ksk_current", "ksk_next"], "sign": ["ksk_current"], "revoke": []}, 2: {"publish": ["ksk_next"], "sign": ["ksk_current", "ksk_next"], "revoke": ["ksk_current"]},
+         3: {"publish": ["ksk_next"], "sign": ["ksk_next"], "revoke": []}}
+_skr3 = skrgen.simulate_skr(_rq3, _sch3, {"ksk_current": KS["ksk_current"], "ksk_next": _kn}, ksrxml.default_zsk_policy())
+_resp3 = skrgen.k_response(_skr3)
+table = format_bundles_for_humans(_resp3.bundles)
+count("bundle-table-revoked-ksk")
+for line, bnd, src in zip(table[1:], _resp3.bundles, _skr3["bundles"]):
+    f = line.split()
+    zcol = sorted(f[3].split(",")) if len(f) > 3 else []
+    want_z = sorted(str(k["tag"]) for k in src["keys"] if k["flags"] == 256)
+    rest = " ".join(f[4:])
+    ksk_tags = [str(k["tag"]) for k in src["keys"] if k["flags"] != 256]
+    if zcol != want_z or not all(t in rest for t in ksk_tags):
+        fail("bundle-table", f"bundle with ZSK tags {want_z} and KSK tags {ksk_tags} (flags {[k['flags'] for k in src['keys'] if k['flags'] != 256]}) is shown as ZSK column {zcol}, KSK column {rest!r}", {"line": line})
+        break
+
 # ------------------------------------------------------------------ 3. ksrsigner(): what the operator sees before confirming, and the written SKR
 from kskm.tools.ksrsigner import ksrsigner
 
